@@ -428,6 +428,9 @@ var a2Exceptions = map[string]a2Exception{
 		sub := core.NewReport(p2(p), "C13")
 		c13R1(p, sub)
 		for _, o := range sub.Obls {
+			if o.Rule != "C13.R1" {
+				continue
+			}
 			if o.Status == core.Violated || o.Status == core.Undecided {
 				return false, "side condition C13.R1 (package-scope guard => names are unique) does not hold: " + o.Construct + " - two same-named objects (a local type, a type parameter) are stored under one key and the map-iteration order decides which one stays"
 			}
